@@ -563,3 +563,37 @@ def r9(ctx: Ctx) -> None:
         ctx.report(fi.where, "trunk-tie-replaced", "a later rectangle of equal area can replace the recorded trunk: after the swap to the front the same list gives the "
                    "other order on the next read, so writing a reloaded netlist does not reproduce the document", lineno=rec.lineno,
                    facts=sorted(show(x) for x in facts)[:12])
+
+
+@rule("C04", "R10.key-order-independent", "ORDER",
+      "the constructor accepts the keys of a module in any order (the format says the order is irrelevant, and the writer has its "
+      "own): inside the loop over the keyword arguments a check may look at the current key and value and at WHICH keys are "
+      "present, but not at state that another key's arm sets -- checks that relate two attributes are made after the loop", floor=1)
+def r10_key_order(ctx: Ctx) -> None:
+    fc = ctx.func(MODULE, "Module.__init__")
+    loops = [n for n in walk_own(fc.node) if isinstance(n, ast.For) and isinstance(n.iter, ast.Call) and isinstance(n.iter.func, ast.Attribute)
+             and n.iter.func.attr == "items" and isinstance(n.iter.func.value, ast.Name) and fc.node.args.kwarg is not None
+             and n.iter.func.value.id == fc.node.args.kwarg.arg]
+    ctx.require(len(loops) == 1, "Module.__init__: keyword loop not found")
+    written = {t.attr for n in ast.walk(loops[0]) if isinstance(n, (ast.Assign, ast.AnnAssign, ast.AugAssign))
+               for t in (n.targets if isinstance(n, ast.Assign) else [n.target]) if isinstance(t, ast.Attribute) and isinstance(t.value, ast.Name) and t.value.id == "self"}
+    cls = ctx.model.cls(MODULE, "Module")
+    # properties that hand out one of those fields count as reading the field
+    reads_of = {}
+    for name, fi in cls.methods.items():
+        if fi.kind == "property":
+            for x in walk_own(fi.node):
+                if isinstance(x, ast.Attribute) and isinstance(x.value, ast.Name) and x.value.id == "self" and x.attr in written:
+                    reads_of.setdefault(name, set()).add(x.attr)
+    n_tests = 0
+    for n in ast.walk(loops[0]):
+        tests = [n.test] if isinstance(n, (ast.Assert, ast.If)) else []
+        for t in tests:
+            n_tests += 1
+            state = sorted({x.attr for x in ast.walk(t) if isinstance(x, ast.Attribute) and isinstance(x.value, ast.Name) and x.value.id == "self"
+                            and (x.attr in written or x.attr in reads_of)})
+            if state:
+                ctx.report(fc.where, f"order-dependent-check {' '.join(state)}", "a check inside the keyword loop of Module.__init__ reads state that another key sets "
+                           f"({', '.join(state)}): whether a document is accepted then depends on the order of its keys, and the writer's order (fixed, terminal, "
+                           "center) need not be the one the check expects", lineno=t.lineno)
+    ctx.site(fc.where, "tests inside the keyword loop read the current key / value / the set of keys only", tests=n_tests, fields_set_in_loop=sorted(written))
